@@ -30,7 +30,7 @@ fn main() {
             let foreign = log.iter().find(|(loc, _)| !loc.is_empty() && !loc.contains("/verif/"));
             match foreign {
                 Some((loc, text)) => {
-                    let dir = args.root.join(".work").join("replay");
+                    let dir = args.root.join("evidence").join("replays");
                     std::fs::create_dir_all(&dir).ok();
                     let path = dir.join(format!("{}-escaped-panic.json", args.id));
                     let doc = serde_json::json!({
